@@ -135,6 +135,8 @@ def run(F, ck, tier):
         ck.ob('R10.2', 'ctl.extra_key:' + q, bool(gets) and not bad, 'extra looking sums are fetched by the position of the lookup' if gets and not bad else
               ('%s fetches the extra looking sums with a key taken from the lookup\'s tables (a table index) instead of the lookup\'s position: declared extra values are applied to the wrong lookup or ignored' % q) if gets else
               '%s no longer consults ctl_extra_looking_sums' % q, (bad or gets)[0].loc() if (bad or gets) else '%s:%d' % (fn.file, fn.line))
+    # ---------------------------------------------------------------- R10.9
+    typed_index_siblings(F, ck)
     # ---------------------------------------------------------------- R10.8
     default_targets(F, ck, 'R10.8')
     # ---------------------------------------------------------------- R10.6
@@ -245,3 +247,76 @@ def default_targets(F, ck, rule):
                   'ARBITRARY TARGET USED AS ZERO: %s obtains a %s from %s(): that is virtual target 0 of the circuit, whose value is whatever the circuit assigns to it - not the constant zero the native code (F::default()) uses' % (fn.qual, t, nm), n.get('s'))
     ck.ob(rule, 'default-target:none', True, 'only derived Default impls construct default targets (%d sites)' % nimpl)
     ck.floor(rule, 'default() target constructions inside derived Default impls (the matcher sees its positive examples)', nimpl, 8)
+
+
+SIBLING_EVALUATORS = [('starky::lookup::eval_helper_columns', 'starky::lookup::eval_helper_columns_circuit'),
+                      ('starky::cross_table_lookup::eval_cross_table_lookup_checks', 'starky::cross_table_lookup::eval_cross_table_lookup_checks_circuit'),
+                      ('starky::lookup::eval_packed_lookups_generic', 'starky::lookup::eval_ext_lookups_circuit')]
+
+
+def _typed_indices(F, fn):
+    """multiset of (type of the indexed collection, normalised index) over a function body; loop / closure variables are L<depth>"""
+    import collections
+    from . import poly
+    from .facts import kids, pat_binds
+    E = poly.Ev(F)
+    out = collections.Counter()
+
+    def rec(n, depth, env):
+        if not isinstance(n, dict):
+            return
+        kd = n.get('k')
+        if kd == 'For':
+            rec(n['it'], depth, env)
+            e2 = dict(env)
+            for b in pat_binds(n['p']):
+                e2[b['id']] = poly.sym('L%d' % depth)
+            rec(n['b'], depth + 1, e2)
+            return
+        if kd == 'Closure':
+            e2 = dict(env)
+            for p in n['p']:
+                for b in pat_binds(p):
+                    e2[b['id']] = poly.sym('L%d' % depth)
+            rec(n['b'], depth + 1, e2)
+            return
+        if kd == 'Block':
+            e2 = dict(env)
+            for s_ in n['st']:
+                rec(s_, depth, e2)
+            if 'e' in n:
+                rec(n['e'], depth, e2)
+            return
+        if kd == 'Index':
+            i = n['i']
+            if not (i.get('k') == 'Struct' and 'Range' in (i.get('d') or '')):
+                bt = (fn.ty(n['e']) or '').replace('&', '').replace('mut ', '').strip()
+                try:
+                    ix = poly.show(E.ev(fn, i, env, 2))
+                except poly.Unknown:
+                    ix = '?'
+                out[(bt, ix)] += 1
+        for c in kids(n):
+            rec(c, depth, env)
+    rec(fn.body, 0, {})
+    return out
+
+
+def typed_index_siblings(F, ck):
+    ck.rule('R10.9', 'native and in-circuit lookup / CTL evaluators index the collections they share (filters, columns - same element type on both sides) with the same multiset of index expressions')
+    n = 0
+    for qa, qb in SIBLING_EVALUATORS:
+        fa, fb = F.one(qa, crate='starky'), F.one(qb, crate='starky')
+        if fa is None or fb is None:
+            ck.ob('R10.9', 'anchor:' + qa.split('::')[-1], False, 'ANCHOR-MISSING %s / %s' % (qa, qb))
+            continue
+        ta, tb = _typed_indices(F, fa), _typed_indices(F, fb)
+        common = {t for t, _ in ta} & {t for t, _ in tb}
+        a = {k: v for k, v in ta.items() if k[0] in common}
+        b = {k: v for k, v in tb.items() if k[0] in common}
+        n += len(a)
+        ok = a == b
+        ck.ob('R10.9', 'indices:%s' % fa.name, ok, 'shared collections indexed alike (%d index sites)' % sum(a.values()) if ok else
+              'SIBLING DISAGREEMENT: %s and %s index a shared collection differently: native %s, circuit %s - e.g. the filter of the wrong looking column is applied in one of them, so the two evaluators constrain different polynomials' %
+              (fa.name, fb.name, sorted((k, v) for k, v in a.items() if b.get(k) != v), sorted((k, v) for k, v in b.items() if a.get(k) != v)), '%s:%d' % (fb.file, fb.line))
+    ck.floor('R10.9', 'typed index expressions compared', n, 4)
